@@ -19,6 +19,8 @@ def hierarchy_scripts(rng, tier):
         lines[0] += " tick0=%d" % rng.choice([2**7 - 2, 2**14 - 3, 2**21 - 2, 2**28 - 3, 2**28 + 7, 2**30 + 11])
         sf = len(lines)
         out.append(("long-uptime-%d" % i, lines + gen_scripts.settle_lines(meta), sf))
+    import special
+    out += special.marker_scripts(rng, 30 if tier == "quick" else 1200)
     return out
 
 
